@@ -49,7 +49,7 @@ def run(tier):
     ck.coverage["programs_discarded_by_model"] = discarded
     return ck.finish("programs from the classes profile (hierarchies up to depth ~4, overriding, shadowing fields, "
                      "methods in fields and variables, statics and Self, default/explicit constructors, super, rebinding, "
-                     "local classes, wrong arities, unknown members, non-class superclasses) against the reference model; "
+                     "local classes, classes declared inside static / instance / constructor methods and lambdas of other classes, wrong arities, unknown members, non-class superclasses) against the reference model; "
                      "non-trivial = distinct program declaring a class that printed at least two lines")
 
 
